@@ -184,9 +184,9 @@ def population_case(ctx, rng, idx):
     except Exception as e:      # noqa
         ctx.violation_exc('construction_raises', e, {'leaves': codes})
         return
-    top = np.concatenate([GP.leaf_top(rng, l, n_ids_h) for l in leaves])
-    # wider parameter ranges than the likelihood checks need
-    scale_cov = 3.0
+    top = np.concatenate([GP.leaf_top(rng, l, n_ids_h, strong_cov=True)
+                          for l in leaves])
+    scale_cov = 1.0
     free = np.ones(len(top), dtype=bool)
     if mode == 'reduced':
         names = model.get_parameter_names()
